@@ -169,6 +169,16 @@ FRAGMENT = dict(FRAGMENTS)
 CRASHES = [n for n, _ in FRAGMENTS if n.startswith("crash_")]
 PLAIN = [n for n, _ in FRAGMENTS if not n.startswith("crash_")]
 
+# corpus-only fragments (NOT in PLAIN: the random streams stay what they were): the phase machinery of pedal.assertions.
+# A script that registers @phase functions / orderings and ends without a resolve() leaves them registered; the next
+# grading must not see them (its own phases run, the dead script's do not).
+FRAGMENT.update({
+    "phase_alpha": "from pedal.assertions.organizers import phase\n@phase('alpha')\ndef _pa():\n    gently('from phase alpha', label='phase_alpha_ran')\n",
+    "phase_beta": "from pedal.assertions.organizers import phase\n@phase('beta', after='alpha')\ndef _pb():\n    explain('from phase beta', label='phase_beta_ran')\n",
+    "phase_gamma": "from pedal.assertions.organizers import phase\n@phase('gamma')\ndef _pg():\n    gently('from phase gamma', label='phase_gamma_ran', priority='low')\n",
+    "resolve_all": "from pedal.assertions import resolve_all\nresolve_all()\n",
+})
+
 WHOLE_SCRIPTS = {
     "nothing": H,
     "no_import": "x = 1\n",
@@ -258,6 +268,11 @@ CORPUS = [
     ("nested-input-then-plain", [G(["nested_input"], "input"), G(["student_out"], "sleep"), G(["nothing"], "imports")]),
     ("block-then-run", [G(["block_print", "block_math"], "imports"), G(["student_out"], "imports")]),
     ("sections-unfinished", [G(["sections_nostop"], "sections"), G(["gently"], "ok"), G(["sections"], "sections")]),
+    ("phase-crash-then-phase", [G(["phase_alpha", "crash_zero"], "ok"), G(["phase_gamma"], "ok"), G(["gently"], "ok")]),
+    ("phase-order-crash-then-phase", [G(["phase_alpha", "phase_beta", "crash_value"], "unused"),
+                                      G(["phase_gamma", "resolve_all"], "unused"), G(["phase_beta"], "ok")]),
+    ("phase-exit-then-resolve-all", [G(["phase_beta", "crash_exit"], "ok"), G(["resolve_all", "gently"], "ok")]),
+    ("phase-then-phase", [G(["phase_alpha"], "ok"), G(["phase_gamma"], "ok")]),
     ("sections-crash", [G(["sections_nostop", "crash_value"], "sections"), G(["student_out"], "printer")]),
     ("inputs-left-over", [G(["inputs"], "input"), G(["student_out"], "input2")]),
     ("hide-then-plain", [G(["hide"], "ok"), G(["nothing"], "ok")]),
